@@ -122,16 +122,14 @@ Definition create_operand (s : text) (i : irow) : res operand :=
   | [] => Ok OInherent
   | _ =>
     let extidx :=
-      match s, rev s with
-      | 91 :: _, 93 :: _ =>
+      if (hd 0 s =? 91) && (last s 0 =? 93) then
           let inner := removelast (tl s) in
           vte_to_ote (do v <- create_value inner i true;
                       match v with
                       | VLR l r _ => Ok (OExtIdx s v (LStr l) (Some r))
                       | _ => Ok (OExtIdx s v (LVal VNone) None)
                       end)
-      | _, _ => OTE
-      end in
+      else OTE in
     next_if_ote extidx
    (next_if_ote (vte_to_ote (do v <- create_value s i true;
                              match v with VLR l r _ => Ok (OIndexed s (LStr l) r) | _ => OTE end))
